@@ -620,6 +620,21 @@ func PropC20(c *vs.Case, kind string, env *C20Env, drv C20Driver) error {
 				return vs.Violf("C20/running-controller-deaf", "after %q: %s runs spec v%d but its hook %s was never called for the new parent %s", what, n, s.Version, prefix, probe)
 			}
 		}
+		// 3b. a controller whose customize hook selects gadgets wakes its parents when a gadget changes
+		for _, n := range mnames {
+			s := model[n]
+			if s.Variant != "customize-related" || s.Parent != "things" {
+				continue
+			}
+			prefix := s.urlPrefix(n)
+			since := time.Now()
+			probeN++
+			env.W.Sim.ExtCreate("gadgets", map[string]any{"metadata": map[string]any{"name": fmt.Sprintf("relprobe%d", probeN), "namespace": "ns1"}})
+			if !pollFor(5*time.Second, func() bool { return env.Router.CallsTo(prefix+"sync", since) > 0 }) {
+				return vs.Violf("C20/running-controller-deaf", "after %q: %s runs spec v%d, whose customize rules select gadgets, but a new gadget did not make it sync any parent", what, n, s.Version)
+			}
+			c.Class("related-change-wakes-running-controller")
+		}
 		if len(mnames) == 0 {
 			time.Sleep(20 * time.Millisecond)
 		}
